@@ -48,8 +48,10 @@ def _build_ll(cfg):
                     raise vlib.BuildError(f"src/{f} does not compile in configuration {cfg} with engine/atomic_shim.hpp "
                                           f"force-included:\n{r.stdout[-3000:]}")
                 os.rename(o + ".tmp", o)
-    # object files among the flags: linked before the harness TU and libfm.a, so their definitions win
-    return vlib.build_harness(f"harness/{H}.cpp", cfg, extra=tuple(objs) + ("-DTSAFE_LL",), name=LL_NAME)
+    # object files among the flags: linked before the harness TU and libfm.a, so their definitions win;
+    # -fno-inline: lowlevel_allocator<> is an extern template, the harness TU must CALL the shimmed instantiation
+    # instead of inlining an unshimmed copy of allocate_node/deallocate_node (the harness checks this: vacuity per allocator)
+    return vlib.build_harness(f"harness/{H}.cpp", cfg, extra=tuple(objs) + ("-DTSAFE_LL", "-fno-inline"), name=LL_NAME)
 
 
 def _replay_ll(js, cfg="dbg"):
